@@ -639,6 +639,35 @@ Fixpoint run (lenient : bool) (fuel : nat) (st : lstate) : lexres :=
       end
   end.
 
+(* ---- leading blank lines ------------------------------------------------------------------------------------------
+   Python:  sentinel_pos = _LEADING_BLANK_LINES.match(content).end()      with the pattern (?: *\n)*
+            ... if token_type == GRAMMAR_SENTINEL and pos != sentinel_pos: continue
+   The grammar sentinel is tried at the start of the first line that is not blank.  The model runs the main loop from
+   THAT position with ls_pos = 0 (ls_pos is only ever compared with 0 and with span starts, which are shifted by the
+   same amount), after pushing what the main loop pushes for each blank line: one NEWLINE token at column 1 (spaces at
+   column 1 that are followed by a newline push nothing and do not move the column).
+   lead_blank s line k nsp toks line_start = (rest, line', k', toks'): rest starts at the first non-blank line,
+   k' = number of characters skipped. *)
+Fixpoint lead_blank (s : str) (line k nsp : N) (toks : list token) (line_start : str) : str * N * N * list token :=
+  match s with
+  | [] => (line_start, line, k, toks)
+  | c :: r =>
+      if N.eqb c c_sp then lead_blank r line k (nsp + 1) toks line_start
+      else if N.eqb c c_nl then lead_blank r (line + 1) (k + nsp + 1) 0 (mkTok NEWLINE (TVText [c_nl]) line 1 None :: toks) r
+      else (line_start, line, k, toks)
+  end.
+
+Definition shift_span (k : N) (sp : span) : span := mkSpan (sp_start sp - k) (sp_end sp - k) (sp_marker sp) (sp_tag sp).
+
+Definition init_state (content : str) (spans : list span) : lstate :=
+  match lead_blank content 1 0 0 [] content with
+  | (rest, line, k, toks) =>
+      match toks with
+      | [] => mkLS content None 0 1 1 [] [] [] spans
+      | _ :: _ => mkLS rest (Some c_nl) 0 line 1 toks [] [] (map (shift_span k) spans)
+      end
+  end.
+
 Definition tokenize (lenient : bool) (lines : list (str * str)) : lexres :=
   match fence_scan lines 1 0 None [] [] with
   | inl e => e
@@ -646,7 +675,7 @@ Definition tokenize (lenient : bool) (lines : list (str * str)) : lexres :=
       let content := join [c_nl] outs in
       match tab_check content 0 1 1 spans with
       | Some (l, c) => LexErr e005 l c
-      | None => run lenient (S (length content)) (mkLS content None 0 1 1 [] [] [] spans)
+      | None => run lenient (S (length content)) (init_state content spans)
       end
   end.
 
